@@ -261,7 +261,7 @@ def _eval(val, var, v, preds):
     return None
 
 
-def byte_set_reaching(body, var, start, targets, preds, values=None):
+def byte_set_reaching(body, var, start, targets, preds, values=None, through_calls=False):
     """(must, may): byte values of `var` for which control from block `start` certainly / possibly reaches one of `targets`,
     following switch terminators whose condition depends only on `var` (others are explored both ways)"""
     must = may = 0
@@ -305,7 +305,7 @@ def byte_set_reaching(body, var, start, targets, preds, values=None):
                 if t["k"] == "call":
                     from vlib.mir import callee_name, strip_generics
                     nm = strip_generics(callee_name(t) or "")
-                    if nm not in preds:
+                    if nm not in preds and not through_calls:
                         reach_all = False
                         leaves += 1
                         continue
